@@ -205,6 +205,8 @@ func g7orig(v reflect.Value) (o reflect.Value, ok bool) {
 // g7poke plants scalar values DIRECTLY in the protobuf struct (what arrives from the wire): values a setter would
 // reject, clamp or cannot express — negative nanoseconds behind an unsigned Timestamp, out-of-range enums, negative
 // indices — are then present at a copy's source.
+var g7poked int // fields written by g7poke since the last report
+
 func g7poke(r g7rnd, v reflect.Value) {
 	o, ok := g7orig(v)
 	if !ok {
@@ -222,6 +224,7 @@ func g7poke(r g7rnd, v reflect.Value) {
 				x = g7rand(r, f.Type())
 			}
 			f.Set(x)
+			g7poked++
 		}
 	}
 }
@@ -671,6 +674,8 @@ func TestVerifC07AllMsgsProfile(t *testing.T) {
 				}
 			}
 			out.Linef("stat copies 1")
+			out.Linef("stat structs_poked %d", g7poked)
+			g7poked = 0
 		}
 		if g7has(src.Type(), "MoveTo") {
 			g7fill(rnd, src, 0)
